@@ -121,33 +121,58 @@ def coq_make(jobs=NCPU, timeout=3000):
     return rc == 0, (out + err)
 
 
+# kernel primitives as Print Assumptions shows them when PrimFloat / PrimInt63 are imported:
+# (name, normalised type).  They are the kernel's, not declared by this development.
+PRIMITIVES = {
+    ("float", "Set"), ("int", "Set"),
+    ("abs", "float -> float"), ("opp", "float -> float"), ("sqrt", "float -> float"),
+    ("add", "float -> float -> float"), ("sub", "float -> float -> float"),
+    ("mul", "float -> float -> float"), ("div", "float -> float -> float"),
+    ("eqb", "float -> float -> bool"), ("ltb", "float -> float -> bool"),
+    ("leb", "float -> float -> bool"), ("compare", "float -> float -> float_comparison"),
+    ("classify", "float -> float_class"),
+    ("frshiftexp", "float -> float * PrimInt63.int"), ("frshiftexp", "float -> float * int"),
+    ("ldshiftexp", "float -> PrimInt63.int -> float"), ("ldshiftexp", "float -> int -> float"),
+    ("normfr_mantissa", "float -> PrimInt63.int"), ("normfr_mantissa", "float -> int"),
+    ("of_uint63", "PrimInt63.int -> float"), ("of_uint63", "int -> float"),
+    ("next_up", "float -> float"), ("next_down", "float -> float"),
+}
+
+
 def parse_assumptions(output):
-    """Returns list of axiom names printed by all `Print Assumptions` in [output]."""
+    """Returns list of (name, type) printed by all `Print Assumptions` in [output]."""
     axioms = []
     in_block = False
+    cur = None
     for line in output.splitlines():
         if line.startswith("Axioms:"):
             in_block = True
             continue
         if in_block:
-            m = re.match(r"^([A-Za-z_][\w.']*)\s*:", line)
+            m = re.match(r"^([A-Za-z_][\w.']*)\s*:\s*(.*)$", line)
             if m:
-                axioms.append(m.group(1))
-            elif line.startswith(" ") or line.startswith("\t") or not line.strip():
+                cur = [m.group(1), m.group(2).strip()]
+                axioms.append(cur)
+            elif (line.startswith(" ") or line.startswith("\t")) and cur is not None:
+                cur[1] = (cur[1] + " " + line.strip()).strip()
+            elif not line.strip():
                 continue
             else:
                 in_block = False
-    return axioms
+                cur = None
+    return [(a, " ".join(t.split())) for a, t in axioms]
 
 
 def axioms_not_allowed(axioms):
     bad = []
-    for a in axioms:
+    for a, t in axioms:
         if a in AXIOM_ALLOW or a.split(".")[-1] in AXIOM_ALLOW:
             continue
         if a.startswith(PRIMITIVE_PREFIXES):
             continue
-        bad.append(a)
+        if (a, t) in PRIMITIVES:
+            continue
+        bad.append(f"{a} : {t}")
     return bad
 
 
@@ -178,8 +203,9 @@ def coq_check_property_file(pid, timeout=1800):
     if rc != 0:
         res["errors"].append(f"coqc {rel} failed: " + (err or out)[-1500:])
         return res
-    res["axioms"] = sorted(set(parse_assumptions(out)))
-    bad = axioms_not_allowed(res["axioms"])
+    axs = sorted(set(parse_assumptions(out)))
+    res["axioms"] = sorted(set(a for a, _ in axs))
+    bad = axioms_not_allowed(axs)
     if bad:
         res["errors"].append("axioms outside the allow-list: " + ", ".join(bad))
         return res
